@@ -1,6 +1,7 @@
 import QV.Shared.SchedFrames
 import QV.C24.Props
 import QV.C25.Spec
+import QV.C25.Lemmas
 /-
 C25 — Computed schedules are as-soon-as-possible and frame-exclusive.  Property theorems only.
 Times are `Int` (exact units); nothing here is about floating point.
@@ -435,6 +436,120 @@ theorem C25_union_hull (a b : Int × Int) :
   · split <;> omega
   · split <;> split <;> omega
 
+/-- **C25 (hull, relative to the source map).** For any flat schedule and any expansion lengths, the block-level
+schedule computed by the fold of `BasicBlock::as_schedule` has one item per source index that some flat item
+maps to; that item's span is exactly the hull (earliest start, latest end) of the flat items mapped to the
+index; and the duration is the latest end. (`sourceOf` is the `BTreeMap::range(..=i).next_back()` lookup.) -/
+theorem C25_fold_hull (lens : List Nat) (items : List SItem) (D : Int) (out : List SItem) (Dout : Int)
+    (h : blockSchedule lens (.ok items D) = .ok out Dout) :
+    (out.map (·.index)).Nodup ∧
+    (∀ x ∈ out, ∃ l, l = items.filter (fun it => sourceOf (firstIndices lens 0 0) it.index = some x.index) ∧
+      l ≠ [] ∧ (∀ y ∈ l, x.start ≤ y.start ∧ y.stop ≤ x.stop) ∧
+      (∃ y ∈ l, y.start = x.start) ∧ (∃ y ∈ l, y.stop = x.stop)) ∧
+    (∀ y ∈ items, ∀ s, sourceOf (firstIndices lens 0 0) y.index = some s → ∃ x ∈ out, x.index = s) ∧
+    ((∀ x ∈ out, x.stop ≤ Dout) ∧ (Dout = 0 ∨ ∃ x ∈ out, x.stop = Dout) ∧ 0 ≤ Dout) := by
+  simp only [blockSchedule, SchedOutcome.ok.injEq] at h
+  obtain ⟨rfl, rfl⟩ := h
+  obtain ⟨hnd, hlook⟩ := foldSpans_lookup (firstIndices lens 0 0) items [] (by simp)
+  simp only [List.lookup_nil] at hlook
+  refine ⟨?_, ?_, ?_, ?_⟩
+  · rw [List.map_map]
+    exact hnd
+  · intro x hx
+    obtain ⟨kv, hkv, rfl⟩ := List.mem_map.1 hx
+    refine ⟨_, rfl, ?_⟩
+    have hl := lookup_of_mem kv.1 kv.2 _ hnd (by simpa using hkv)
+    rw [hlook] at hl
+    simp only at hl ⊢
+    have hne : items.filter (fun it => sourceOf (firstIndices lens 0 0) it.index = some kv.1) ≠ [] := by
+      intro hnil; rw [hnil] at hl; simp [hullFold] at hl
+    obtain ⟨r, hr, h1, h2, h3⟩ := hullFold_none _ hne
+    rw [hr] at hl
+    simp only [Option.some.injEq] at hl
+    subst hl
+    exact ⟨hne, h1, h2, h3⟩
+  · intro y hy s hs
+    have hne : items.filter (fun it => sourceOf (firstIndices lens 0 0) it.index = some s) ≠ [] := by
+      intro hnil
+      have : y ∈ items.filter (fun it => sourceOf (firstIndices lens 0 0) it.index = some s) := by
+        simp [List.mem_filter, hy, hs]
+      rw [hnil] at this; simp at this
+    obtain ⟨r, hr, _⟩ := hullFold_none _ hne
+    have := hlook s
+    rw [hr] at this
+    exact ⟨⟨s, r.1, r.2⟩, List.mem_map.2 ⟨(s, r), mem_of_lookup _ _ _ this, rfl⟩, rfl⟩
+  · obtain ⟨m1, m2, m3⟩ := maxFrom_ge 0 ((List.map (fun kv => (⟨kv.1, kv.2.1, kv.2.2⟩ : SItem))
+      (foldSpans (firstIndices lens 0 0) items [])).map SItem.stop)
+    refine ⟨fun x hx => m2 _ (List.mem_map.2 ⟨x, hx, rfl⟩), ?_, m1⟩
+    rcases m3 with m3 | m3
+    · exact .inl m3
+    · obtain ⟨x, hx, hxe⟩ := List.mem_map.1 m3
+      exact .inr ⟨x, hx, hxe⟩
+
+/-- **C25 (each source instruction's span exactly covers the spans of what it expanded to), any number of
+instructions and calibrations.** Let `lens` be the expansion lengths of the source instructions and `items` a
+flat schedule of the expanded block in which exactly the indices below `lens.sum` occur. Then the schedule
+`BasicBlock::as_schedule` folds from it satisfies `HullSpec`: one item per source instruction with a non-empty
+expansion, whose span is the hull (earliest start, latest end) of the spans of the expanded instructions
+`first .. first+len-1`; nothing for instructions that expanded to nothing; duration = latest end. -/
+theorem C25_block_hull (lens : List Nat) (items : List SItem) (D : Int) (out : List SItem) (Dout : Int)
+    (hall : ∀ i, i < lens.sum → ∃ y ∈ items, y.index = i) (hrange : ∀ y ∈ items, y.index < lens.sum)
+    (h : blockSchedule lens (.ok items D) = .ok out Dout) : HullSpec lens items out Dout := by
+  obtain ⟨hnd, hhull, hpres, htotal⟩ := C25_fold_hull lens items D out Dout h
+  have hit : ∀ idx j first len, (firstIndices lens 0 0)[j]? = some (first, j) → lens[j]? = some len →
+      first ≤ idx → idx < first + len → sourceOf (firstIndices lens 0 0) idx = some j := by
+    intro idx j first len h1 h2 h3 h4
+    rw [sourceOf_eq]
+    have := fold_hit idx lens 0 0 none (by simp) j first len (by simpa using h1) h2 h3 h4
+    simpa using this
+  refine ⟨hnd, ?_, ?_, htotal⟩
+  · intro x hx
+    obtain ⟨l, rfl, hne, hb, hs, he⟩ := hhull x hx
+    obtain ⟨y, hy⟩ := List.exists_mem_of_ne_nil _ hne
+    simp only [List.mem_filter, decide_eq_true_eq] at hy
+    obtain ⟨j, first, len, a, b, c, d⟩ := interval_exists lens 0 0 y.index (Nat.zero_le _)
+      (by simpa using hrange y hy.1)
+    simp only [Nat.zero_add] at a
+    have hj : j = x.index := by
+      have := hit y.index j first len a b c d
+      rw [hy.2] at this
+      exact (Option.some.inj this).symm
+    subst hj
+    refine ⟨first, len, a, b, by omega, ?_, ?_, ?_⟩
+    · intro y' hy' h1 h2
+      exact hb y' (by simp [List.mem_filter, hy', hit y'.index _ first len a b h1 h2])
+    · obtain ⟨y', hy', h1⟩ := hs
+      simp only [List.mem_filter, decide_eq_true_eq] at hy'
+      obtain ⟨j', first', len', a', b', c', d'⟩ := interval_exists lens 0 0 y'.index (Nat.zero_le _)
+        (by simpa using hrange y' hy'.1)
+      simp only [Nat.zero_add] at a'
+      have : j' = x.index := by
+        have := hit y'.index j' first' len' a' b' c' d'
+        rw [hy'.2] at this
+        exact (Option.some.inj this).symm
+      subst this
+      rw [a] at a'; rw [b] at b'
+      cases a'; cases b'
+      exact ⟨y', hy'.1, c', d', h1⟩
+    · obtain ⟨y', hy', h1⟩ := he
+      simp only [List.mem_filter, decide_eq_true_eq] at hy'
+      obtain ⟨j', first', len', a', b', c', d'⟩ := interval_exists lens 0 0 y'.index (Nat.zero_le _)
+        (by simpa using hrange y' hy'.1)
+      simp only [Nat.zero_add] at a'
+      have : j' = x.index := by
+        have := hit y'.index j' first' len' a' b' c' d'
+        rw [hy'.2] at this
+        exact (Option.some.inj this).symm
+      subst this
+      rw [a] at a'; rw [b] at b'
+      cases a'; cases b'
+      exact ⟨y', hy'.1, c', d', h1⟩
+  · intro s len hl hpos
+    obtain ⟨first, h1, _, h3⟩ := firstIndices_get lens 0 0 s len hl
+    simp only [Nat.zero_add] at h1 h3
+    obtain ⟨y, hy, hyi⟩ := hall first (by omega)
+    exact hpres y hy s (by rw [hyi]; exact hit first s first len h1 hl (Nat.le_refl _) (by omega))
+
 /-- the documented durations (schedule.rs:174-180), as the model computes them -/
 theorem C25_durations :
     instructionDuration .zero = some 0 ∧ instructionDuration .unknown = none ∧
@@ -489,6 +604,42 @@ theorem C25_exclusive_checker_sound (b : Block) (items : List SItem) (h : exclus
     have := hn (f, k1) h1 (f, k2) h2 rfl
     rcases hc with hc | hc <;> simp_all
   · exact hn
+
+theorem C25_hull_checker_sound (lens : List Nat) (flat out : List SItem) (D : Int)
+    (h : hullB lens flat out D = true) : HullSpec lens flat out D := by
+  simp only [hullB, Bool.and_eq_true, List.all_eq_true, decide_eq_true_eq, Bool.or_eq_true,
+    List.any_eq_true] at h
+  obtain ⟨⟨⟨⟨⟨h1, h2⟩, h3⟩, h4⟩, h5⟩, h6⟩ := h
+  refine ⟨h1, ?_, ?_, ⟨h4, h5.imp id (fun ⟨x, hx, a⟩ => ⟨x, hx, a⟩), h6⟩⟩
+  · intro x hx
+    have := h2 x hx
+    cases hf : (firstIndices lens 0 0)[x.index]? with
+    | none => simp [hf] at this
+    | some fs =>
+      cases hl : lens[x.index]? with
+      | none => simp [hf, hl] at this
+      | some len =>
+        obtain ⟨first, s⟩ := fs
+        simp only [hf, hl, Bool.and_eq_true, decide_eq_true_eq, List.all_eq_true, Bool.or_eq_true,
+          Bool.not_eq_true', Bool.and_eq_false_iff, decide_eq_false_iff_not, List.any_eq_true] at this
+        obtain ⟨⟨⟨⟨hs, hpos⟩, hall⟩, ⟨y1, hy1, ⟨a1, b1⟩, c1⟩⟩, ⟨y2, hy2, ⟨a2, b2⟩, c2⟩⟩ := this
+        subst hs
+        refine ⟨first, len, rfl, rfl, hpos, ?_, ⟨y1, hy1, a1, b1, c1⟩, ⟨y2, hy2, a2, b2, c2⟩⟩
+        intro y hy hlo hhi
+        rcases hall y hy with hneg | hpos'
+        · rcases hneg with hneg | hneg
+          · exact absurd hlo hneg
+          · exact absurd hhi hneg
+        · exact hpos'
+  · intro s len hl hpos
+    have hmem : (len, s) ∈ lens.zipIdx := by
+      rw [List.mem_zipIdx_iff_getElem?]
+      simpa using hl
+    have := h3 (len, s) hmem
+    simp only [beq_iff_eq, Bool.or_eq_true, List.any_eq_true, decide_eq_true_eq] at this
+    rcases this with h0 | ⟨x, hx, hxs⟩
+    · omega
+    · exact ⟨x, hx, hxs⟩
 
 /-! ### Non-vacuity -/
 
